@@ -13,11 +13,9 @@
        theorem (feed_split = C03_split_partial) then gives every segmentation the one-read result.
        The strict `+ 1` in the limits of `valid` is exactly C03's CR-boundary finding: a line of the limit
        length is rejected when a read ends between its CR and LF.
-     C02_request_roundtrip_refuted_chunked_false : the full statement "every request build produces round-trips"
-       is FALSE of the faithful model: chunked=False with a body keeps Content-Length on the head but the
-       writer is switched to chunked framing (`if self.chunked is not None`), the parser reads "3\r\n" as the
-       body and then fails on the rest.  Replayed on the implementation: known finding C02-client-chunked-false.
-       (`valid` excludes exactly this: framing_ok ties the framing headers to the writer mode.)
+     chunked=False: the writer mode is regenerated from `ClientRequest._create_writer` on every run; since fix
+       85945a4 (`if self.chunked:`) a chunked=False request keeps Content-Length framing, satisfies `valid` and is
+       covered by C02_request_roundtrip (C02_chunked_false_example); before it the statement was refuted there.
      C02_keepalive_request_side : for every request build produces without a caller-supplied Connection header,
        the parser's should_close equals connector.force_close (by version and the Connection header _send adds).
    RESPONSE DIRECTION (server -> client): the BYTES are covered by the end-to-end harness (harness/c02.py)
@@ -111,16 +109,20 @@ Example C02_roundtrip_example :
 Proof. exact ex_segmented. Qed.
 Print Assumptions C02_roundtrip_example.
 
-(* ------------------------------------------------------------------ 2. refutation: chunked=False *)
-Theorem C02_request_roundtrip_refuted_chunked_false :
-  exists i r w,
-    build i = BOk r /\ i_chunked i = Some false /\ client_serialize r = Some w /\
-    valid lim0 r = false /\ framing_ok r = false /\
-    body_bytes (c_body r) = [120; 121; 122] /\
-    digest (run_segs lim0 [] init [w] [] []) =
-      (RErr EBadMethod, [([80; 79; 83; 84], [47; 112], [51; 13; 10], [], true, None)]).
-Proof. exact refuted_chunked_false. Qed.
-Print Assumptions C02_request_roundtrip_refuted_chunked_false.
+(* ------------------------------------------------------------------ 2. chunked=False *)
+(* Until fix 85945a4 the unrestricted statement was refuted here (chunked=False kept Content-Length on the head
+   while the writer chunk-framed the body).  The writer mode is regenerated from the source
+   (Generated/WireGen.writer_chunking_enabled): chunked=False now satisfies `valid`, so C02_request_roundtrip
+   covers it like any other request; instance: *)
+Example C02_chunked_false_example :
+  let r := built ex_chunked_false in
+  build ex_chunked_false = BOk r /\ i_chunked ex_chunked_false = Some false /\ c_chunked r = Some false /\
+  client_serialize r <> None /\ valid lim0 r = true /\
+  concat (cut3 (wire_of r)) = wire_of r /\
+  digest (run_segs lim0 [] init (cut3 (wire_of r)) [] []) =
+    (ROk [], [([80; 79; 83; 84], [47; 112], [120; 121; 122], [], true, None)]).
+Proof. exact ex_chunked_false_ok. Qed.
+Print Assumptions C02_chunked_false_example.
 
 (* ------------------------------------------------------------------ 3. keep-alive, request side *)
 Theorem C02_keepalive_request_side : forall lim i r,
